@@ -92,6 +92,17 @@ func (p *pebbleEnv) powerLoss() error {
 	return nil
 }
 
+// restart closes the database cleanly (the memtable is flushed) and opens it again; nothing is lost.
+func (p *pebbleEnv) restart() error {
+	p.adapter.Close()
+	a, err := kv.NewPebbleAdapter("/db", pebbleOpts(p.fs))
+	if err != nil {
+		return err
+	}
+	p.adapter = a
+	return nil
+}
+
 func (p *pebbleEnv) close() {
 	defer func() { recover() }()
 	p.adapter.Close()
